@@ -3,7 +3,7 @@ import ast
 import pathlib
 
 from ..engine import sym
-from ..engine.interp import PyFn, Rec, Cell
+from ..engine.interp import PyFn, Rec, Cell, Unsupported
 from ..engine.loader import Unknown, norm_text
 from ..engine.sym import is_sym
 from ..rules import guards
@@ -355,9 +355,71 @@ def rule_escapes(ck):
             ck.violation(where, f"malformed escape {text!r}: result {r!r}, errors {errs}, raised {raised}; expected an error diagnostic", construct="malformed escape")
 
 
+
+def rule_cook_contract(ck):
+    """Metacommand.compile_insn hands every declared operand to get_as_int / get_as_str as (state, what-for text, the statement's
+    token, the operand's token): the state is what a symbol operand is resolved in, the tokens are what a type-mismatch
+    diagnostic underlines. A literal operand hides a permutation (its value needs no state); a symbol operand dies on it."""
+    repo = ck.repo
+    where = "metacommand_impl::Metacommand.compile_insn"
+    n = 0
+    for name, kind in ((".blkb", "int"), (".even", "int"), ("make_raw", "str"), (".include", "str"), (".rad50", "str"), (".ascii", "str")):
+        seen = []
+
+        def rec(which):
+            def f(I_, fn, a, k):
+                names = ["state", "what", "token", "arg_token"]
+                b = dict(zip(names, a))
+                b.update({k_: v for k_, v in k.items() if k_ in names})
+                seen.append((which, b))
+                return sym.var("STR", "str") if which == "get_as_str" else sym.var("INT", "int")
+            return f
+        ops = []
+
+        def build(sh, I):
+            del ops[:]
+            del seen[:]
+            if kind == "int":
+                ops.append(sh.xexpr(sym.var("X0", "int"), "X0"))
+            else:
+                q = I.instantiate(I.module_get("types", "QuotedString"), [None, None, '"', "zz"], {})
+                q.fields["ctx_start"] = sym.var("q.ctx_start", "obj")
+                ops.append(q)
+            return list(ops)
+        try:
+            paths, I = run_directive(repo, name, build=build, dot_cell=False, extra={"metacommand_impl::get_as_str": rec("get_as_str"), "metacommand_impl::get_as_int": rec("get_as_int"),
+                                                                                   "devices::resolve_relative_path": lambda I_, fn, a, k: sym.var("PATH", "str"),
+                                                                                   "parser::parse": lambda I_, fn, a, k: sym.var("AST", "obj"),
+                                                                                   "compiler::Compiler.compile_include": lambda I_, fn, a, k: b""})
+        except (Unknown, Unsupported):
+            continue
+        calls = list(seen)
+        if not calls:
+            continue
+        n += 1
+        which, b = calls[0]
+        ck.instance(("cook", name), {"directive": name, "cooked by": which, "what": b.get("what") if isinstance(b.get("what"), str) else repr(b.get("what"))}, fn=where)
+        tok = b.get("token")
+        ok = b.get("state") == STATE and (isinstance(b.get("what"), str) or (is_sym(b.get("what")) and sym.kind(b.get("what")) == "str")) and ops and b.get("arg_token") is ops[0] \
+            and (tok == sym.op("item", STATE, "insn") or (isinstance(tok, Rec) and tok.cls.name == "Instruction"))
+        if not ok:
+            ck.violation(where, f"'{name}' hands its operand to {which}(state={_short(b.get('state'))}, what={_short(b.get('what'))}, token={_short(b.get('token'))}, arg_token={_short(b.get('arg_token'))}); "
+                                "expected (the statement's state, a text naming the operand, the statement's token, the operand's token): a symbol operand is resolved in that state, "
+                                "and a wrong operand type is reported on those tokens", construct=f"operand cooking contract ({which})")
+    if n < 4:
+        ck.unknown(f"only {n} directives reach get_as_int / get_as_str with a declared operand")
+
+
+def _short(v):
+    if isinstance(v, Rec):
+        return f"<{v.cls.name}>"
+    return repr(v)[:40]
+
+
 def run(ck):
     ck.run_rule("C06.R0", "directive registry contains the data directives", 24, rule_R0)
     ck.run_rule("C06.R1", "get_as_int: accept interval and reduction per (width, signedness, default)", 20, rule_R1)
+    ck.run_rule("C06.R1c", "declared operands reach get_as_int / get_as_str as (state, what, statement token, operand token)", 4, rule_cook_contract)
     ck.run_rule("C06.R23", ".byte/.word/.dword/implicit list: typing, packing, byte order, odd-address guard", 30, rule_R23)
     ck.run_rule("C06.R4", ".blkb/.blkw/.even/.odd/.align fill", 7, rule_R4)
     ck.run_rule("C06.R6", ".ascii/.asciz: charset, <n> bytes, chunk order", 6, rule_R6)
